@@ -29,7 +29,7 @@ CHECKS = {
 
 CHECKS["C03"] = dict(
     text="Same construction over CFG-rich shapes (every terminator kind, callers/callees/function layouts) and patches ending in jmp/jcc/call/ret/labels; TLC computes the per-instruction control flow of the edited listing (fallthrough, branch/call targets by label position, return sites of calls per function) and judges the observed CFG flattened to instructions, buried terminators and dead endpoints.",
-    note="As C01. Clauses are split (Fallthrough / BranchCall / Returns / NoBuriedTerminator / EndpointsAlive) so that the open findings KF-C03-1..7 (each excused only element-wise under a narrow signature, spec/G1Findings.tla) leave the rest armed. Domain: input CFG equals the listing's control flow; no instruction falls into data.",
+    note="As C01. Clauses are split (Fallthrough / BranchCall / Returns / NoBuriedTerminator / EndpointsAlive / FallthroughAdjacent) so that the open findings KF-C03-1..7 (each excused only element-wise under a narrow signature, spec/G1Findings.tla) leave the rest armed. Domain: input CFG equals the listing's control flow; no instruction falls into data.",
     technique="TLA+ listing-refinement spec with per-instruction CFG semantics; TLC case generation + trace validation",
     ref="5/C03")
 CHECKS["C05"] = dict(
@@ -67,7 +67,7 @@ CHECKS["C15"] = dict(
     ref="5/C15")
 
 CHECKS["C16"] = dict(
-    text="spec/StackMachine.tla is an abstract machine for emitted code (sp, word slots, written set, register/flag tokens, ~35 event kinds); spec/AbiGen.tla (Level B) mirrors _allocate_patch_registers and the five _create_prologue_and_epilogue. TLC exhaustively enumerates ABI x clobber subset x clobbers_flags x align_stack x preserve_caller_saved x scratch count x reads x leaf x start alignment x the spelling of register names in the constraints (canonical / upper case / sub-register / mixed case), executes the designed event sequence on the machine and checks every property clause in every state; every configuration is emitted as a case and replayed into the real generators, the prologue + body + epilogue are assembled by the real Assembler, decoded by capstone into events, replayed through the same machine and judged by TLC (spec/TraceStack.tla). Histories insert ONE Patch object at 2-3 sites of a single apply() (insert_at loop, AllBlocksScope, AllFunctionsScope; mixed leaf-ness) and every clause is evaluated at every site, the body being located by its own bytes so that any prologue / epilogue - even none - is judged. Requests at the end of each ABI's scratch pool (exact fit, one more) are judged against psABI candidate sets (C16_RefusesUnservable).",
+    text="spec/StackMachine.tla is an abstract machine for emitted code (sp, word slots, written set, register/flag tokens, ~35 event kinds); spec/AbiGen.tla (Level B) mirrors _allocate_patch_registers and the five _create_prologue_and_epilogue. TLC exhaustively enumerates ABI x clobber subset x clobbers_flags x align_stack x preserve_caller_saved x scratch count x reads x leaf x start alignment x the spelling of register names in the constraints (canonical / upper case / sub-register / mixed case), executes the designed event sequence on the machine and checks every property clause in every state; every configuration is emitted as a case and replayed into the real generators, the prologue + body + epilogue are assembled by the real Assembler, decoded by capstone into events, replayed through the same machine and judged by TLC (spec/TraceStack.tla). Histories insert ONE Patch object at 2-3 sites of a single apply() (insert_at loop, AllBlocksScope, AllFunctionsScope; mixed leaf-ness) and every clause is evaluated at every site, the body being located by its own bytes so that any prologue / epilogue - even none - is judged. Requests at the end of each ABI's scratch pool (exact fit, one more) are judged against psABI candidate sets (C16_RefusesUnservable). spec/LeafHist.tla models the leafFunctions table over histories of 2-4 RewritingContexts on one module (contexts given different function lists, calls added to leaf functions): TLC checks SkipIfMayBeLeaf / TableIsOriginal / FirstSeenSticks on every history, every history is replayed through real contexts and the code found at every patched site is judged with leaf = 'the original function contains no call'.",
     note="Trusted: capstone as observer; the instruction semantics of StackMachine.tla; the patch body as havoc of the declared resources; psABI facts. Bounds: 4 (quick) / 6 (thorough) register universes per ABI, 3-5 reads choices, scratch in {0,1,3} / {0,1,2,3,7}. An instruction that touches sp/memory and is not in the table makes a case out of domain (never observed).",
     technique="TLA+ stack machine + Level-B generator model; TLC exhaustive MC with case emission; replay with bytes-to-events decoding; TLC trace validation",
     ref="5/C16")
@@ -95,7 +95,7 @@ CHECKS["C10"] = dict(
     ref="5/C10")
 
 CHECKS["C07"] = dict(
-    text="spec/Scopes.tla is an explicit state machine of scope registration and application: passes register (scope, patch) pairs one at a time on one shared store (Register, NewPass; function scopes refused without functions), Apply resolves sites block by block in address order (block-keyed then scope-keyed modifications, first potential offset, stable sort by (offset, id)). TLC checks ExactlyOncePerMatchingBlock, NoSiteInNonMatchingBlock, NeverAfterTerminator, OrderIsRegistrationOrder, AppliedEqualsSites, RefusalIsExact exhaustively over small modules x registration lists, emits every terminal state as a case; the cases are replayed through the real PassManager with marker patches (unique immediate chosen inside get_asm, recording the InsertionContext) and spec/TraceScopes.tla judges invocations, placement, order, context names and refusals. A dedicated space (`Scopes_loose_{q,t}.cfg`) has function-less code and data blocks behind function blocks (layouts head / mid / gap) with filters naming the preceding function; the clause C07_ContextFunction requires the InsertionContext's function to be the function of the named original block (none for loose blocks).",
+    text="spec/Scopes.tla is an explicit state machine of scope registration and application: passes register (scope, patch) pairs one at a time on one shared store (Register, NewPass; function scopes refused without functions), Apply resolves sites block by block in address order (block-keyed then scope-keyed modifications, first potential offset, stable sort by (offset, id)). TLC checks ExactlyOncePerMatchingBlock, NoSiteInNonMatchingBlock, NeverAfterTerminator, OrderIsRegistrationOrder, AppliedEqualsSites, RefusalIsExact exhaustively over small modules x registration lists, emits every terminal state as a case; the cases are replayed through the real PassManager with marker patches (unique immediate chosen inside get_asm, recording the InsertionContext) and spec/TraceScopes.tla judges invocations, placement, order, context names and refusals. A dedicated space (`Scopes_loose_{q,t}.cfg`) has function-less code and data blocks behind function blocks (layouts head / mid / gap) with filters naming the preceding function; the clause C07_ContextFunction requires the InsertionContext's function to be the function of the named original block (none for loose blocks). Template `sysc`: a block ending in a system call (Syscall + Fallthrough edges).",
     note="Bounds: <=3 blocks, all terminator kinds plus zero-sized and data blocks, 0-2 functions, function tables present/empty/absent, x64 ELF + ia32 PE + arm64, 1-3 passes x 0-3 registrations, name filters from a small pattern language. Conformance runs on a seeded sample of the generated cases. ANYWHERE is judged by the weak statement (an instruction boundary not after the terminator).",
     technique="TLC exhaustive model checking of the registration/application state machine, TLC-generated cases replayed into PassManager, TLC trace validation of marker positions and InsertionContexts",
     ref="5/C07")
@@ -107,12 +107,12 @@ CHECKS["C20"] = dict(
     ref="5/C20")
 
 CHECKS["C12"] = dict(
-    text="spec/Asm.tla is the streaming assembler as a state machine over tokens (one action per streamer callback mirroring _State, Finalize = the three passes). TLC exhaustively explores all token sequences up to 4 (quick) / 5 (thorough) tokens from 11-13-token vocabularies with trivially_unreachable and implicit_cfi in BOOLEAN and checks on every final state the Level-A clauses Decode, Tiling, TerminatorsEndBlocks, EdgeShape, Fallthrough, Labels, DataConversion, Operands, Alignment, Completes. A seeded sample of the emitted programs is rendered for 11 targets (x64 AT&T/Intel, IA32, ARM64, MIPS32 x ELF/PE, PIE on x86 ELF), assembled by the real Assembler, decoded token-guided with capstone, and judged by TLC with the same operators. Further vocabularies: `ops` (ARM64 / MIPS operands whose addend or relocation modifier is invisible in the bytes: literal loads, :lo12:, :got:, %hi/%lo/%got, with addends; transfers to targets with an addend must be refused), `str` / `strc` (string literals and stand-alone NULs, across section switches and chunks: C12_Strings), constant branch targets.",
+    text="spec/Asm.tla is the streaming assembler as a state machine over tokens (one action per streamer callback mirroring _State, Finalize = the three passes). TLC exhaustively explores all token sequences up to 4 (quick) / 5 (thorough) tokens from 11-13-token vocabularies with trivially_unreachable and implicit_cfi in BOOLEAN and checks on every final state the Level-A clauses Decode, Tiling, TerminatorsEndBlocks, EdgeShape, Fallthrough, Labels, DataConversion, Operands, Alignment, Completes. A seeded sample of the emitted programs is rendered for 11 targets (x64 AT&T/Intel, IA32, ARM64, MIPS32 x ELF/PE, PIE on x86 ELF), assembled by the real Assembler, decoded token-guided with capstone, and judged by TLC with the same operators. Further vocabularies: `ops` (ARM64 / MIPS operands whose addend or relocation modifier is invisible in the bytes: literal loads, :lo12:, :got:, %hi/%lo/%got, with addends; transfers to targets with an addend must be refused), `str` / `strc` (string literals and stand-alone NULs, across section switches and chunks: C12_Strings), constant branch targets, `x86ops` (address-of operands on x86). Every other sampled case uses an alternative spelling of its direct transfers / address-of operands (jrcxz, cbz, tbnz, bal, RIP-relative operands followed by an immediate ...).",
     note="Model checking exhaustive within the configs; conformance sampled (4 000 quick / 60 000 thorough). Level-B drift is reported, never a verdict (0). One fixed rendering per token and target; data-token lengths come from the spec, instruction sizes are observed. KF-C12-1 (MIPS32 jr $ra gets a branch edge, not a return) is open.",
     technique="TLA+/TLC model checking of a token-level assembler machine with spec->code case generation and code->spec trace validation",
     ref="5/C12")
 CHECKS["C13"] = dict(
-    text="The same state machine over the symbol vocabulary (module symbol sets, allow_undef) and over all chunkings of token sequences: invariants for the MultipleDefinitions/Undef error discipline with per-chunk label visibility, Binding, TempSuffix, and Chunking (chunked result = whole emission with a .text switch at former chunk boundaries). Cases run through the real Assembler chunk by chunk and whole; a third of the single-chunk cases are also inserted with RewritingContext + AllBlocksScope at N in {1,2,3,5} sites (constraints forcing prologue/epilogue chunks) for UniqueNames and Completes. Constant assignments (`name = v`, `.set`) take part in the MultipleDefinitions discipline across chunks (C13_Assignments). spec/AsmRw.tla models RewritingContext._patch_id numbering and get_or_insert_extern_symbol: real rewrites with several insertions and inserted functions re-using one temporary label, and extern requests for names that already exist in any form, are judged by C13_UniqueAcrossPatches and C13_ExternBinding.",
+    text="The same state machine over the symbol vocabulary (module symbol sets, allow_undef) and over all chunkings of token sequences: invariants for the MultipleDefinitions/Undef error discipline with per-chunk label visibility, Binding, TempSuffix, and Chunking (chunked result = whole emission with a .text switch at former chunk boundaries). Cases run through the real Assembler chunk by chunk and whole; a third of the single-chunk cases are also inserted with RewritingContext + AllBlocksScope at N in {1,2,3,5} sites (constraints forcing prologue/epilogue chunks) for UniqueNames and Completes. Constant assignments (`name = v`, `.set`) take part in the MultipleDefinitions discipline across chunks (C13_Assignments). spec/AsmRw.tla models RewritingContext._patch_id numbering and get_or_insert_extern_symbol: real rewrites with several insertions and inserted functions re-using one temporary label, and extern requests for names that already exist in any form, are judged by C13_UniqueAcrossPatches and C13_ExternBinding. Vocabulary `attr`: ELF symbol-attribute directives (.weak / .globl / .hidden / .type) naming labels, module symbols and unknown names (action EmitSymbolAttribute; C13_SymAttrs; the directive is a mention for the Undef / MultipleDefinitions discipline).",
     note="Chunking domain: no forward cross-chunk reference, CFI balanced per chunk, each chunk starts in .text. Rewrites are in domain only for the 5 ABI targets. KF-C13-1 (a patch with an empty section crashes apply()) is open.",
     technique="TLA+/TLC model checking with spec->code case generation and code->spec trace validation",
     ref="5/C13")
